@@ -107,7 +107,14 @@ impl QueryMut for InsertNodesQuery {
                 }
 
                 if let Some(alias) = self.aliases.get(index) {
-                    db.insert_new_alias(*db_id, alias)?;
+                    if alias.is_empty() {
+                        return Err(DbError::query(
+                            DbErrorType::NotAllowed,
+                            "Empty alias is not allowed",
+                        ));
+                    }
+
+                    db.insert_alias(*db_id, alias)?;
                 }
 
                 ids.push(*db_id);
